@@ -78,6 +78,26 @@ CLAIMED["C13"] = (
     "DESIGN.md §4 C13",
 )
 
+CLAIMED["C05"] = (
+    "Lean model of refurb's type resolver (get_mypy_type, _is_same_type/_is_same_class, is_subclass, FURB123) over a model of "
+    "mypy's Type / symbol ADTs. Proved for types, alias chains, expressions, expectation lists and MROs of any size: Any, None, unions, "
+    "type variables, callables, literal types, other classes, class objects, NamedTuples, unresolved operands, modules and alias nodes "
+    "never qualify for a concrete class (never_qualify*, namedTuple_rejected, classObject_rejected); whatever qualifies is exactly "
+    "the expected class (isSameType_exact); on plain expressions of any depth the resolver's answer is what a reference inference "
+    "relation infers (resolver_sound), FURB123 end to end (furb123_*); the unrestricted statement is refuted by machine-checked "
+    "witnesses (flow-narrowed names: known finding). SIMPLE_TYPES / FUNC_NAME_MAPPING facts by decide +kernel over tables read from "
+    "the running code. Tied to the code by comparing the model with get_mypy_type on every expression node and with the diagnostics "
+    "on ~4k (operand, check) cases per quick run (115k thorough), and refurb's answer with mypy's own result.types for 16 checks.",
+    COMMON_NOTE
+    + "Modelled, not verified: that mypy computes the reference relation (compared with result.types on generated programs only); "
+    "type-variable instantiation is opaque; the syntactic side conditions (is_equivalent, argument shapes) of checks other than "
+    "FURB123 are not modelled, only their type condition; literal types count as their fallback class; dict(os.environ) accepted by "
+    "convention; FURB190 deliberately accepts None/Any (documented heuristic) and is not probed here (see C01). The worker's "
+    "serialisation of mypy nodes, types and symbol tables is trusted.",
+    "Lean 4 refinement proof + refuted/partial pairs + model-vs-implementation and implementation-vs-mypy differential on generated typed programs",
+    "DESIGN.md §4 C05",
+)
+
 CLAIMED["C04"] = (
     "Theorems for syntax trees of any depth and width: if every child edge that occurs is followed with multiplicity 1 the visit "
     "sequence equals the node list (walk_eq_nodes; also necessary: once_requires_one; a dropped field hides its subtree, a doubled "
